@@ -182,13 +182,27 @@ def verify(unit, seed=None, rlimit=None, canary=True, keep=True):
     os.makedirs(os.path.join(WORK, unit), exist_ok=True)
     t0 = time.time()
     tpl = load_template(unit)
-    try:
-        gen, info = template.generate(tpl, canary=False)
-    except AnchorLost as e:
-        return dict(unit=unit, status='undecided', reason='anchor lost: %s' % e, failures=[], obligations=[], info=None, wall_s=time.time() - t0)
+    template._inline_allow.clear()
     path = os.path.join(WORK, unit, '%s.rs' % unit)
-    open(path, 'w').write(gen)
-    res = verus.run(path, seed=seed, rlimit=rlimit)
+    for attempt in (0, 1, 2):
+        try:
+            gen, info = template.generate(tpl, canary=False)
+        except AnchorLost as e:
+            return dict(unit=unit, status='undecided', reason='anchor lost: %s' % e, failures=[], obligations=[], info=None, wall_s=time.time() - t0)
+        open(path, 'w').write(gen)
+        res = verus.run(path, seed=seed, rlimit=rlimit)
+        # rule R3h on demand: a method / associated function of `self` that the unit has no text for (a statement was
+        # moved into a new private helper) is inlined from the same source file, and the unit is verified again
+        unknown = set()
+        for d in res['diags']:
+            msg = d.get('message', '') if isinstance(d, dict) else ''
+            mo = re.search(r'no (?:method|associated function or constant|function or associated item) named `(\w+)` found', msg)
+            if mo:
+                unknown.add(mo.group(1))
+        unknown -= template._inline_allow
+        if not unknown:
+            break
+        template._inline_allow.update(unknown)
     fails = name_failures(unit, info, res, gen)
     obligations = enumerate_obligations(unit, info)
     summ = res['summary'] or {}
